@@ -135,6 +135,9 @@ func identityBundle(cb *compiled) *mapBundle {
 					plural = p
 				}
 			}
+			if m.ID == 0 {
+				return // (a registry built without the message pass: its messages have no ids, hence no translations)
+			}
 			if plural == nil {
 				b.msgs[m.ID] = soymsg.NewMessage(m.ID, "«"+soymsg.PlaceholderString(m)+"»")
 				return
@@ -206,7 +209,16 @@ func checkC08(c C08Case) Verdict {
 	if len(srcs) > 0 {
 		srcs[0] += c08Rows + c08Keys + c08MapFail
 	}
+	// (part of the bundles are put together through the lower-level API, with and without the message pass)
+	switch hashCase(c) % 6 {
+	case 0:
+		handBuilt = 1
+	case 1:
+		handBuilt = 2
+	}
+	noIDs := handBuilt == 2
 	cb, err, pn := compileBundle(names, srcs, c.Prog.Prog.Globals)
+	handBuilt = 0
 	if err != nil || pn != nil {
 		return excluded("does not compile (C01/C02 matter)")
 	}
@@ -250,7 +262,7 @@ func checkC08(c C08Case) Verdict {
 	digests := func() [4]uint64 {
 		return [4]uint64{deepDigest(cb.reg), deepDigest(dataSets), deepDigest([]data.Map{ij, earlier}), deepDigest(msgs)}
 	}
-	hasPlural, hasMarks := false, strings.ContainsAny(strings.Join(srcs, ""), "«»")
+	hasPlural, hasMarks := false, noIDs || strings.ContainsAny(strings.Join(srcs, ""), "«»")
 	for _, t := range cb.reg.Templates {
 		collectMsgs(t.Node, func(m *ast.MsgNode) {
 			for _, ch := range m.Body.Children() {
@@ -468,6 +480,10 @@ func checkC08(c C08Case) Verdict {
 	return ok(repeats > 0, fmt.Sprintf("ops:%s", bucket(len(c.Ops))), fmt.Sprintf("repeats:%s", bucket(repeats)))
 }
 
-func TestC08(t *testing.T) { runPropCrashy(t, "C08", genC08, checkC08) }
+func TestC08(t *testing.T) {
+	fileRoute = true
+	defer func() { fileRoute = false }()
+	runPropCrashy(t, "C08", genC08, checkC08)
+}
 
 var _ = strings.Contains
